@@ -204,6 +204,9 @@ func (p *Program) canon(fn *Func, x ast.Expr, depth int) string {
 				case "assign":
 					s := p.canon(fn, ds.rhs, depth+1)
 					if ds.multi {
+						if _, isIdx := ast.Unparen(ds.rhs).(*ast.IndexExpr); isIdx && ds.idx == 0 {
+							return s // v, ok := m[k]: v is m[k]
+						}
 						return fmt.Sprintf("%s#%d", s, ds.idx)
 					}
 					return s
@@ -319,6 +322,9 @@ func (p *Program) canon(fn *Func, x ast.Expr, depth int) string {
 }
 
 func constName(o *types.Const) string {
+	if o.Pkg() == nil {
+		return o.Name() // true, false, iota
+	}
 	pk := ""
 	if o.Pkg() != nil {
 		pk = o.Pkg().Name() + "."
